@@ -212,6 +212,7 @@ impl Scenario for CryptSc {
             "tl-bitflip-all" => tl_tamper(plan, lib, rec, true),
             "eg-tally" => eg_tally(plan, lib, rec),
             "eg-proof-tamper" => eg_proof_tamper(plan, lib, rec),
+            "eg-transcripts" => eg_transcripts(plan, lib, rec),
             _ => {}
         }
     }
@@ -1049,6 +1050,51 @@ fn eg_proof_tamper(plan: &Plan, lib: &dyn Lib, rec: &mut Rec) {
     }
     rec.sample(|| format!("perturbation={} g={} key_class={}", label, g.name(), plan.get("key_class")));
     c.finish(rec);
+}
+
+/// Proofs an honest prover would make if the Fiat-Shamir transcript were a NEAR-MISS of the documented one (a pair dropped,
+/// a label or an item removed and the rest zipped, one slot absorbing another item, neighbours swapped, the dst message
+/// missing): they satisfy both verification equations for their own challenge, and a verifier that checks the documented
+/// transcript — and only that — refuses every one of them. Also the reference's proof over the documented transcript
+/// (accepted: the construction itself is right) and that proof's malleation c2 + d*H, message_proof + c*d (refused).
+fn eg_transcripts(plan: &Plan, lib: &dyn Lib, rec: &mut Rec) {
+    let g = grp_of(plan.get("g"));
+    let mut x = Xo::derive(plan.seed, &[0xC2F]);
+    let Some(a) = party(rec, lib, g, 4 + plan.get("key_class") as u64 % 2, plan.seed) else { return };
+    let Some((tags, enc_dst)) = own_tags(rec, lib, g) else { return };
+    let b = Bls::with_tags(sig_grp(g), tags);
+    let h = refimpl::elgamal_generator(&b, &enc_dst);
+    let Some(pkp) = Pt::from_bytes(&a.pk) else { return };
+    let variants = refimpl::elgamal_transcript_variants();
+    let build = |pr: &refimpl::ElGamalProofRef| ElGamalFields { c1: pr.c1.to_bytes(), c2: pr.c2.to_bytes(), proof: Some([refimpl::scalar_to_be(&pr.message_proof), refimpl::scalar_to_be(&pr.blinder_proof), refimpl::scalar_to_be(&pr.challenge)]) }.build();
+    let (m, blind, r) = (refimpl::keygen(&x.bytes(8)), refimpl::keygen(&x.bytes(9)), refimpl::keygen(&x.bytes(10)));
+    // the documented transcript through the reference prover: accepted, and decrypts to m*H
+    let good = refimpl::elgamal_prove(&b, &pkp, &h, &m, &blind, &r);
+    let gb = build(&good);
+    let ok = rec.call(lib, g, Op::EgProofVerify, &[&gb, &a.pk]);
+    rec.expect("C14", "honest-proof-verifies", ok.is_ok(), || format!("reference-made proof g={} | a proof over the documented transcript is rejected: {:?}", g.name(), ok));
+    // its malleation: c2 + d*H with message_proof + c*d keeps the r2 equation; only the transcript (c2 is absorbed) stops it
+    let d = refimpl::keygen(&x.bytes(11));
+    let mal = refimpl::ElGamalProofRef { c1: good.c1, c2: good.c2.add(&h.mul(&d)), message_proof: good.message_proof + good.challenge * d, blinder_proof: good.blinder_proof, challenge: good.challenge };
+    let o = rec.call(lib, g, Op::EgProofVerify, &[&build(&mal), &a.pk]);
+    rec.expect("C14", "altered-proof-rejected", !o.is_ok(), || format!("c2+d*H with message_proof+c*d g={} | a proof whose ciphertext and message scalar were shifted together verifies", g.name()));
+    // runs alternate between the groups: consecutive runs of one group walk through all variants 12 at a time
+    let start = (plan.steps.first().map(|s| s.arg(0)).unwrap_or(0).max(0) as usize / 2 * 12) % variants.len();
+    for k in 0..12 {
+        let (name, with_dst, pairs) = &variants[(start + k) % variants.len()];
+        let pr = refimpl::elgamal_prove_variant(&b, &pkp, &h, &m, &blind, &r, *with_dst, pairs);
+        if pr.challenge == good.challenge {
+            continue;
+        }
+        rec.fault("byz-near-miss-transcript");
+        rec.case(&[14, g as u64, 60, (start + k) as u64], true);
+        let pb = build(&pr);
+        let o = rec.call(lib, g, Op::EgProofVerify, &[&pb, &a.pk]);
+        rec.expect("C14", "altered-proof-rejected", !o.is_ok(), || format!("near-miss-transcript ({}) g={} | a proof whose challenge was derived over another transcript layout verifies", name, g.name()));
+        let vd = rec.call(lib, g, Op::EgVerifyDecrypt, &[&pb, &a.sk]);
+        rec.expect("C14", "altered-proof-rejected", !vd.is_ok(), || format!("near-miss-transcript ({}) verify_and_decrypt g={} | accepted", name, g.name()));
+    }
+    rec.sample(|| format!("g={} 12 of {} transcript near-misses from #{}", g.name(), variants.len(), start));
 }
 
 #[cfg(test)]
